@@ -132,7 +132,7 @@ def main(argv):
     driver_ok = True
     # ---- 1. tie: build the implementation side and regenerate Gen -----------------------------------------
     try:
-        ctx.stats['build_impl_s'] = round(core.build_impl(lichess=prop.get('needs_lichess', False), translated=any('Translated' in m for m in prop['modules'])), 1)
+        ctx.stats['build_impl_s'] = round(core.build_impl(lichess=prop.get('needs_lichess', False), translated_modules=[m for m in prop['modules'] if 'Translated' in m]), 1)
         # a translator that no longer understands the source is a broken tie, but the search for a concrete failing input
         # still runs (against the model generated from the last source the translator understood)
         for what, detail in core.SOFT_TIE:
